@@ -67,24 +67,32 @@ func KVMetadataToProto(md *store.KVMetadata) *KVMetadata {
 }
 
 func TxFromProto(stx *Tx) *store.Tx {
+	// getters are used so that an incomplete message results in an (unverifiable) empty transaction
+	hdr := stx.GetHeader()
+
 	header := &store.TxHeader{}
-	header.ID = stx.Header.Id
-	header.Ts = stx.Header.Ts
-	header.BlTxID = stx.Header.BlTxId
-	header.BlRoot = DigestFromProto(stx.Header.BlRoot)
-	header.PrevAlh = DigestFromProto(stx.Header.PrevAlh)
+	header.ID = hdr.GetId()
+	header.Ts = hdr.GetTs()
+	header.BlTxID = hdr.GetBlTxId()
+	header.BlRoot = DigestFromProto(hdr.GetBlRoot())
+	header.PrevAlh = DigestFromProto(hdr.GetPrevAlh())
 
-	header.Version = int(stx.Header.Version)
+	header.Version = int(hdr.GetVersion())
 
-	header.Metadata = TxMetadataFromProto(stx.Header.Metadata)
+	header.Metadata = TxMetadataFromProto(hdr.GetMetadata())
 
-	entries := make([]*store.TxEntry, len(stx.Entries))
+	entries := make([]*store.TxEntry, len(stx.GetEntries()))
 
-	header.NEntries = int(stx.Header.Nentries)
-	header.Eh = DigestFromProto(stx.Header.EH)
+	header.NEntries = int(hdr.GetNentries())
+	if header.NEntries < 0 || header.NEntries > len(entries) {
+		// the header announces more entries than the message holds: such a transaction can not be verified,
+		// the holder is limited to the entries it was given
+		header.NEntries = len(entries)
+	}
+	header.Eh = DigestFromProto(hdr.GetEH())
 
-	for i, e := range stx.Entries {
-		entries[i] = store.NewTxEntry(e.Key, KVMetadataFromProto(e.Metadata), int(e.VLen), DigestFromProto(e.HValue), 0)
+	for i, e := range stx.GetEntries() {
+		entries[i] = store.NewTxEntry(e.GetKey(), KVMetadataFromProto(e.GetMetadata()), int(e.GetVLen()), DigestFromProto(e.GetHValue()), 0)
 	}
 
 	tx := store.NewTxWithEntries(header, entries)
@@ -121,6 +129,10 @@ func InclusionProofToProto(iproof *htree.InclusionProof) *InclusionProof {
 }
 
 func InclusionProofFromProto(iproof *InclusionProof) *htree.InclusionProof {
+	if iproof == nil {
+		return nil
+	}
+
 	return &htree.InclusionProof{
 		Leaf:  int(iproof.Leaf),
 		Width: int(iproof.Width),
@@ -211,6 +223,10 @@ func LinearAdvanceProofToProto(proof *store.LinearAdvanceProof) *LinearAdvancePr
 }
 
 func DualProofFromProto(dproof *DualProof) *store.DualProof {
+	if dproof == nil {
+		return nil
+	}
+
 	return &store.DualProof{
 		SourceTxHeader:     TxHeaderFromProto(dproof.SourceTxHeader),
 		TargetTxHeader:     TxHeaderFromProto(dproof.TargetTxHeader),
@@ -224,6 +240,10 @@ func DualProofFromProto(dproof *DualProof) *store.DualProof {
 }
 
 func DualProofV2FromProto(dproof *DualProofV2) *store.DualProofV2 {
+	if dproof == nil {
+		return nil
+	}
+
 	return &store.DualProofV2{
 		SourceTxHeader:   TxHeaderFromProto(dproof.SourceTxHeader),
 		TargetTxHeader:   TxHeaderFromProto(dproof.TargetTxHeader),
@@ -233,6 +253,10 @@ func DualProofV2FromProto(dproof *DualProofV2) *store.DualProofV2 {
 }
 
 func TxHeaderFromProto(hdr *TxHeader) *store.TxHeader {
+	if hdr == nil {
+		return nil
+	}
+
 	return &store.TxHeader{
 		ID:       hdr.Id,
 		PrevAlh:  DigestFromProto(hdr.PrevAlh),
@@ -262,6 +286,10 @@ func TxMetadataFromProto(md *TxMetadata) *store.TxMetadata {
 }
 
 func LinearProofFromProto(lproof *LinearProof) *store.LinearProof {
+	if lproof == nil {
+		return nil
+	}
+
 	return &store.LinearProof{
 		SourceTxID: lproof.SourceTxId,
 		TargetTxID: lproof.TargetTxId,
@@ -276,7 +304,7 @@ func LinearAdvanceProofFromProto(laproof *LinearAdvanceProof) *store.LinearAdvan
 
 	inclusionProofs := make([][][sha256.Size]byte, len(laproof.InclusionProofs))
 	for i, proof := range laproof.InclusionProofs {
-		inclusionProofs[i] = DigestsFromProto(proof.Terms)
+		inclusionProofs[i] = DigestsFromProto(proof.GetTerms())
 	}
 
 	return &store.LinearAdvanceProof{
